@@ -182,7 +182,8 @@ def rule(chk, W):
                     x = AB([("s", "int2octets(x)", rolen)])
                     h1 = AB([("s", "bits2octets(h1)", rolen)])
                     extra = AB.of(b"") if extra_kind == "none" else AB([("s", "extra", 7)])
-                    data = AB([("s", "h1", holen)])
+                    # the digest handed in need not have the length of the HMAC hash (truncated or foreign digests)
+                    data = AB([("s", "h1", holen if g != 1 else holen + 12 if extra_kind == "none" else max(1, holen - 8))])
                     seen = []
 
                     class Mac(small.Abstract):
